@@ -259,3 +259,53 @@ func H_lex_template_spans() {
 	symx.Reach("lexed")
 	checkSpans(toks, src)
 }
+
+// H_parse_cost: "within a time bounded by a modest function of the input length". Families of
+// sources that nest one construct d levels deep are parsed at depth d and d+4; the engine counts
+// the SSA instructions of the two parses exactly, and the deeper parse may cost at most 4x the
+// shallower one (the input grows by less than 2x; an exponential parser doubles per level: 16x).
+func H_parse_cost() {
+	type fam struct{ open, leaf, close, pre string }
+	fams := []fam{
+		{"[$a, ", "1", "]", "$a = 1; $x = "},
+		{"$x[$a, ", "1", "]", "$a = 1; $x = [1]; $y = "},
+		{"f($a, ", "1", ")", "$a = 1; $y = "},
+		{"($a + ", "1", ")", "$a = 1; $y = "},
+		{"[\"k\" => ", "1", "]", "$y = "},
+		{"$a ? ", "1", " : 2", "$a = 1; $y = "},
+		{"fn($q) => ", "1", "", "$y = "},
+		{"if ($a) { ", "$b = 1;", " }", "$a = 1; "},
+		{"!", "$a", "", "$a = 1; $y = "},
+		{"$a ?? ", "1", "", "$a = 1; $y = "},
+		{"-(", "1", ")", "$y = "},
+		{"[", "1", "][0]", "$y = "},
+	}
+	k := symx.Choose("family", len(fams))
+	d := symx.Param("d", 6)
+	f := fams[k]
+	build := func(depth int) string {
+		s := f.pre
+		for i := 0; i < depth; i++ {
+			s += f.open
+		}
+		s += f.leaf
+		for i := 0; i < depth; i++ {
+			s += f.close
+		}
+		return s + ";\n$z = 1;\n"
+	}
+	cost := func(src string) int {
+		p := parser.NewParser()
+		runtime.NewVM(p)
+		c0 := symx.Cost()
+		p.ParseString(src, "t.zy")
+		return symx.Cost() - c0
+	}
+	shallow := cost(build(d))
+	deep := cost(build(d + 4))
+	symx.Observe("cost", k, shallow, deep)
+	if symx.IsSymbolic() {
+		symx.Assert(deep <= 4*shallow, "parse cost grows at most polynomially with nesting depth: "+f.open+"…")
+	}
+	symx.Reach("parsed")
+}
